@@ -13,6 +13,9 @@ KNOWN_CLASSES = {
 }
 
 
+OUTSIDE_VIEW = []   # case ids whose HirSpec differs from the model's outside the property's view (last hir_run)
+
+
 def run_shard(args):
     d, seed, n, i, profile = args
     sh(f'{HARNESS} hir --seed {seed} --n {n} --out {d} --shard {i} --profile {profile} > /dev/null 2>{d}/herr_{i}.txt')
@@ -29,8 +32,113 @@ def dehex(s):
     return re.sub(r'#([0-9a-f]*)', f, s)
 
 
+# ---- views on the HirSpec: what of the extracted table a property's theorems speak about -------------------------------
+def parse_sexp(text):
+    """atoms (strings) and lists; the observation grammar has no quoting (names are #hex atoms)"""
+    toks = re.findall(r'[()]|[^\s()]+', text)
+    pos = 0
+
+    def rd():
+        nonlocal pos
+        t = toks[pos]; pos += 1
+        if t == '(':
+            l = []
+            while toks[pos] != ')':
+                l.append(rd())
+            pos += 1
+            return l
+        return t
+    return rd()
+
+
+def _models(t, acc):
+    if isinstance(t, list):
+        if len(t) == 2 and t[0] == 'model':
+            acc.add(t[1])
+        for x in t:
+            _models(x, acc)
+
+
+def _field(f, docs):          # (f ty optional flatten doc)
+    return [f[1], f[2], f[3]] + ([f[4]] if docs else [])
+
+
+def _record(r, docs):
+    k = r[0]
+    if k == 'struct':         # (struct name nullable docs ((k field)...))
+        return [k, r[1], r[2]] + ([r[3]] if docs else []) + [[[kf[0], _field(kf[1], docs)] for kf in r[4]]]
+    if k == 'newtype':        # (newtype name doc (fields))
+        return [k, r[1]] + ([r[2]] if docs else []) + [[_field(f, docs) for f in r[3]]]
+    if k == 'alias':          # (alias name field)
+        return [k, r[1], _field(r[2], docs)]
+    if k == 'enum':           # (enum name doc ((value alias)...))
+        return [k, r[1]] + ([r[2]] if docs else []) + [r[3]]
+    return r
+
+
+def _record_docs(r):
+    k = r[0]
+    if k == 'struct':
+        return [k, r[1], r[3], [[kf[0], kf[1][4]] for kf in r[4]]]
+    if k == 'newtype':
+        return [k, r[1], r[2], [f[4] for f in r[3]]]
+    if k == 'alias':
+        return [k, r[1], r[2][4]]
+    if k == 'enum':
+        return [k, r[1], r[2]]
+    return r
+
+
+def hir_view(prop, line):
+    """the part of one observation line `<id> <stage> <payload>` that `prop` looks at (None: the whole line)"""
+    q = line.split(' ', 2)
+    if len(q) < 3:
+        return None
+    if not q[2].startswith('ok (hir '):
+        # an error outcome: which error is the model's business (the text of a panic is not an observation); that
+        # extraction failed is what is observed
+        return ('outcome', 'fail') if q[2].startswith(('err', 'panic')) else None
+    try:
+        t = parse_sexp(q[2][3:])
+        parts = {x[0]: x[1:] for x in t[1:]}
+        schemas, ops = parts['schemas'], parts['ops']
+        # op: (op name method path doc (params) ret); param: (p name loc ty optional)
+        if prop == 'C01':
+            return ('outcome', 'ok')
+        if prop in ('C05', 'C03'):
+            return sorted([o[2], o[3], [[p[1], p[2], p[4]] + ([p[3]] if prop == 'C03' else []) for p in o[5]]] for o in ops)
+        if prop == 'C06':
+            return sorted([o[1], o[2], o[3]] for o in ops)
+        if prop == 'C07':
+            m = set(); _models([schemas, [[o[5], o[6]] for o in ops]], m)
+            return (sorted(kr[0] for kr in schemas), sorted(m))
+        if prop == 'C08':
+            return ([[kr[0], _record(kr[1], False)] for kr in schemas], sorted([o[2], o[3], [[p[1], p[3]] for p in o[5]], o[6]] for o in ops))
+        if prop == 'C04':
+            return [[kr[0], _record(kr[1], False)] for kr in schemas]
+        if prop == 'C14':
+            return parts.get('security')
+        if prop == 'C15':
+            return parts.get('servers')
+        if prop == 'C17':
+            return ([[kr[0], _record_docs(kr[1])] for kr in schemas], sorted([o[1], o[4]] for o in ops), parts.get('docs'))
+        if prop == 'C18':
+            return ()
+    except (IndexError, KeyError, TypeError):
+        return None
+    return None
+
+
+def same_in_view(prop, a, b):
+    if a == b:
+        return True
+    va, vb = hir_view(prop, a), hir_view(prop, b)
+    return va is not None and va == vb
+
+
 def hir_run(prop, tier, seed, d):
     """runs the shards; returns (total, nontrivial, feats, samples, disagreements, findings)"""
+    OUTSIDE_VIEW.clear()
     nshards = 16
     per = 100 if tier == 'quick' else 2500
     with ThreadPoolExecutor(16) as ex:
@@ -46,7 +154,9 @@ def hir_run(prop, tier, seed, d):
         if len(imp) != len(mod):
             disagreements.append({'what': f'shard {i}: {len(imp)} implementation lines, {len(mod)} model lines', 'err': open(f'{d}/herr_{i}.txt').read()[-800:]})
         for a, b in zip(imp, mod):
-            if a != b:
+            if a != b and same_in_view(prop, a, b):
+                OUTSIDE_VIEW.append(a.split(' ', 1)[0])
+            elif a != b:
                 cid = a.split(' ', 1)[0]
                 k = next((j for j, (x, y) in enumerate(zip(a, b)) if x != y), min(len(a), len(b)))
                 if len(disagreements) < 40:
@@ -68,7 +178,7 @@ def hir_run(prop, tier, seed, d):
         agree = {}
         for a, b in zip(imp, mod):
             cid = a.split(' ', 1)[0]
-            agree[cid] = agree.get(cid, True) and (a == b)
+            agree[cid] = agree.get(cid, True) and same_in_view(prop, a, b)
         for l in open(f'{d}/horacle_{i}.txt'):
             cid, p, cls, msg = l.rstrip('\n').split('\t', 3)
             # a failure counts as a KNOWN class only where the model (which encodes the recorded behaviour of the
@@ -125,7 +235,7 @@ def run(prop, tier, seed, extra_props=()):
                evaluations=total, distinct_nontrivial=nontriv,
                rule='corpus (minimised earlier failures, one witness per finding) then generated specs: 0-8 components over objects/enums/maps/allOf/aliases/arrays/primitives with adversarial property names and docs, 1-6 operations with parameters in all locations at operation and path-item level, $ref/inline/allOf bodies, $ref/inline/array/primitive responses, servers 0..3, security schemes of every kind; odd shards use the `wild` profile (array components with inline items, placeholder equal to the previous segment, colliding synthesised names, undescribed servers, basic/oauth2/cookie auth); non-trivial = at least one feature fired; distinct by spec text',
                samples=samples, feature_histogram=feats, disagreements_checked=len(disagreements), oracle_failures=len(oracle),
-               known_findings_seen={k: len(v) for k, v in known_seen.items()}, proof_problems=ps['problems'])
+               known_findings_seen={k: len(v) for k, v in known_seen.items()}, proof_problems=ps['problems'], disagreements_outside_view=len(OUTSIDE_VIEW))
     write_evidence(prop, tier, seed, 'proof', cov, time.time() - t0, len(out.violations),
                    assumptions=['names are ASCII; documents are inside the supported domain D except for the explicitly generated diagnostic classes'])
     return out.finish()
